@@ -267,13 +267,43 @@ class Recorder:
 
             def on_field_end(self, root, context, info):
                 rec.emit(e="fe", i=self.i, p="/".join(map(str, info.path)))
+        class Group(MultiInstrumentation):
+            """A stack that is itself an instrumentation: its own start hooks run before its members', its own end hooks after
+            them, so MultiInstrumentation(I(1), Group(2, I(3))) is observably the flat stack 1, 2, 3."""
+
+            def __init__(self, i, *members):
+                super().__init__(*members)
+                self.i = i
+        for hook, code in (("on_query", "q"), ("on_parsing", "p"), ("on_validation", "v"), ("on_execution", "e")):
+            def start(self, _c=code, _h=hook):
+                rec.emit(e=_c + "s", i=self.i)
+                getattr(MultiInstrumentation, _h + "_start")(self)
+
+            def end(self, _c=code, _h=hook):
+                getattr(MultiInstrumentation, _h + "_end")(self)
+                rec.emit(e=_c + "e", i=self.i)
+            setattr(Group, hook + "_start", start)
+            setattr(Group, hook + "_end", end)
+
+        def field_start(self, root, context, info):
+            rec.emit(e="fs", i=self.i, p="/".join(map(str, info.path)))
+            MultiInstrumentation.on_field_start(self, root, context, info)
+
+        def field_end(self, root, context, info):
+            MultiInstrumentation.on_field_end(self, root, context, info)
+            rec.emit(e="fe", i=self.i, p="/".join(map(str, info.path)))
+        Group.on_field_start, Group.on_field_end = field_start, field_end
+        if self.ninstr >= 3:
+            stack = [I(i) for i in range(1, self.ninstr - 1)] + [Group(self.ninstr - 1, I(self.ninstr))]
+        else:
+            stack = [I(i) for i in range(1, self.ninstr + 1)]
         if extra:
-            return MultiInstrumentation(*([I(i) for i in range(1, self.ninstr + 1)] + list(extra)))
+            return MultiInstrumentation(*(stack + list(extra)))
         if self.ninstr == 0:
             return None
         if self.ninstr == 1:
             return I(1)
-        return MultiInstrumentation(*[I(i) for i in range(1, self.ninstr + 1)])
+        return MultiInstrumentation(*stack)
 
     def middlewares(self):
         rec = self
